@@ -395,17 +395,19 @@ pub enum MintErr {
 }
 
 pub fn micro_per_dosc(height: u64) -> u128 {
-    thread_local! {
-        static TAB: std::cell::RefCell<Vec<u128>> = std::cell::RefCell::new(vec![1_000_000]);
+    static TAB: std::sync::RwLock<Vec<u128>> = std::sync::RwLock::new(Vec::new());
+    if let Some(v) = TAB.read().unwrap().get(height as usize) {
+        return *v;
     }
-    TAB.with(|t| {
-        let mut t = t.borrow_mut();
-        while t.len() <= height as usize {
-            let last = *t.last().unwrap();
-            t.push((last + 1).max(last + last / 2_000_000));
-        }
-        t[height as usize]
-    })
+    let mut t = TAB.write().unwrap();
+    if t.is_empty() {
+        t.push(1_000_000);
+    }
+    while t.len() <= height as usize {
+        let last = *t.last().unwrap();
+        t.push((last + 1).max(last + last / 2_000_000));
+    }
+    t[height as usize]
 }
 
 struct LegacyHash;
@@ -465,8 +467,8 @@ fn check_mint(
     let (difficulty, proof_bytes): (u32, Vec<u8>) =
         stdcode::deserialize(&tx.data).map_err(|_| MintErr::Reject("data does not decode".into()))?;
     let proof = melpow::Proof::from_bytes(&proof_bytes).ok_or(MintErr::Reject("proof does not decode".into()))?;
-    if difficulty == 0 || difficulty > 40 {
-        return Err(MintErr::Unspecified("difficulty outside the range the reference verifier is run on"));
+    if difficulty == 0 || difficulty > 64 {
+        return Err(MintErr::Reject("difficulty outside 1..=64".into()));
     }
     let legacy = crate::util::catch(|| proof.verify(&puzzle.0, difficulty as usize, LegacyHash));
     let is910 = match legacy {
@@ -474,9 +476,12 @@ fn check_mint(
         Ok(false) => match crate::util::catch(|| proof.verify(&puzzle.0, difficulty as usize, Tip910Hash)) {
             Ok(true) => true,
             Ok(false) => return Err(MintErr::Reject("proof does not verify under either hash".into())),
-            Err(_) => return Err(MintErr::Unspecified("proof verifier panicked (structurally incomplete proof)")),
+            Err(_) => return Err(MintErr::Reject("structurally incomplete proof".into())),
         },
-        Err(_) => return Err(MintErr::Unspecified("proof verifier panicked (structurally incomplete proof)")),
+        Err(_) => match crate::util::catch(|| proof.verify(&puzzle.0, difficulty as usize, Tip910Hash)) {
+            Ok(true) => true,
+            _ => return Err(MintErr::Reject("structurally incomplete proof".into())),
+        },
     };
     let prev = (ctx.header_at)(h - 1).ok_or(MintErr::Reject("no previous header".into()))?;
     let (speed, nominal) = mint_bound(if is910 { 100 } else { 1 }, difficulty, age, prev.dosc_speed, h)
@@ -596,10 +601,29 @@ pub struct SealTrace {
     pub reward: Option<u128>,
     /// blocks where the reference declines to predict exactly (zero totals etc.)
     pub unspecified: Option<&'static str>,
+    /// degenerate request batches that are left unsettled
+    pub skipped: Vec<&'static str>,
 }
 
 /// Reference sealing of `pre` (an unsealed snapshot) with `action`. Only canonical pool spellings are settled.
 pub fn seal(pre: &Snap, action: Option<ProposerAction>) -> (Snap, SealTrace) {
+    seal_with(pre, action, false)
+}
+
+/// `lenient`: treat every spelling of a pool key as naming the canonical pool (the other outcome the
+/// properties allow for non-canonical spellings).
+pub fn seal_with(pre: &Snap, action: Option<ProposerAction>, lenient: bool) -> (Snap, SealTrace) {
+    let canonical_key = |data: &[u8]| -> Option<PoolKey> {
+        if lenient {
+            let k = PoolKey::from_bytes(data)?;
+            if k.left() == k.right() {
+                return None;
+            }
+            Some(PoolKey::new(k.left(), k.right()))
+        } else {
+            canonical_key(data)
+        }
+    };
     let mut s = pre.clone();
     let mut tr = SealTrace::default();
     let tips = tips_at(s.net, s.height);
@@ -635,7 +659,9 @@ pub fn seal(pre: &Snap, action: Option<ProposerAction>) -> (Snap, SealTrace) {
         let in_l = reqs.iter().filter(|t| t.outputs[0].denom == k.left()).fold(0u128, |a, t| a.saturating_add(t.outputs[0].value.0));
         let in_r = reqs.iter().filter(|t| t.outputs[0].denom == k.right()).fold(0u128, |a, t| a.saturating_add(t.outputs[0].value.0));
         if p.lefts.saturating_add(in_l) == 0 || p.rights.saturating_add(in_r) == 0 {
-            tr.unspecified = Some("swap against a pool with an empty side");
+            // no price: the requests stay unsettled
+            tr.skipped.push("swap against a pool with an empty side");
+            continue;
         }
         let (out_l, out_r) = pool_swap(&mut p, in_l, in_r);
         for t in reqs.iter() {
@@ -675,14 +701,19 @@ pub fn seal(pre: &Snap, action: Option<ProposerAction>) -> (Snap, SealTrace) {
     for (k, reqs) in by_pool.iter() {
         let a = reqs.iter().fold(0u128, |x, t| x.saturating_add(t.outputs[0].value.0));
         let b = reqs.iter().fold(0u128, |x, t| x.saturating_add(t.outputs[1].value.0));
+        if a == 0 || b == 0 {
+            tr.skipped.push("deposit batch with a zero side");
+            continue;
+        }
         let mut p = s.pools.get(k).copied().unwrap_or(PoolState { lefts: 0, rights: 0, price_accum: 0, liqs: 0 });
         let minted = pool_deposit(&mut p, a, b);
         s.pools.insert(*k, p);
         // shares: proportional to sqrt(a_i * b_i), rounded down, never more than what was minted in total
-        let total_m = isqrt(&BigUint::from(a)) * isqrt(&BigUint::from(b));
-        if total_m.is_zero() {
-            tr.unspecified = Some("deposit batch with a zero side");
-        }
+        // weights sqrt(a_i)*sqrt(b_i), shares taken out of the sum of the weights (so they add up to <= minted)
+        let total_m: BigUint = reqs
+            .iter()
+            .map(|t| isqrt(&BigUint::from(t.outputs[0].value.0)) * isqrt(&BigUint::from(t.outputs[1].value.0)))
+            .sum();
         for t in reqs.iter() {
             let hsh = t.hash_nosigs();
             let m = isqrt(&BigUint::from(t.outputs[0].value.0)) * isqrt(&BigUint::from(t.outputs[1].value.0));
@@ -720,11 +751,9 @@ pub fn seal(pre: &Snap, action: Option<ProposerAction>) -> (Snap, SealTrace) {
     for (k, reqs) in by_pool.iter() {
         let t_total = reqs.iter().fold(0u128, |x, t| x.saturating_add(t.outputs[0].value.0));
         let mut p = *s.pools.get(k).unwrap();
-        if t_total > p.liqs {
-            tr.unspecified = Some("withdrawal of more liquidity than the pool records");
-        }
-        if t_total == 0 {
-            tr.unspecified = Some("zero-valued withdrawal");
+        if t_total > p.liqs || t_total == 0 {
+            tr.skipped.push("withdrawal of nothing or of more liquidity than the pool records");
+            continue;
         }
         let (pl, pr) = pool_withdraw(&mut p, t_total);
         s.pools.insert(*k, p);
